@@ -13,7 +13,12 @@ EncCases == { [k |-> "enc-depth", f |-> f, kind |-> kd, limit |-> l, depth |-> d
               : f \in EncoderFormats, kd \in EncoderKinds, l \in Limits_, d \in UNION {Depths(x) : x \in Limits_} }
 ItemCases == { [k |-> "maxitems", kind |-> kd, maxitems |-> m, count |-> n, refuse |-> RefuseItems(n, m)]
                : kd \in {"array-counted", "array-typed", "object-counted"}, m \in {0, 1, 2, 5}, n \in {0, 1, 2, 3, 5, 6} }
-ClaimCases == { [k |-> "claim", f |-> q[1], name |-> q[2], head |-> q[3], extra |-> e] : q \in Claims, e \in Extra }
+\* at: 0 = the claimed-length header is the first thing in the input; otherwise the header is preceded, inside an enclosing array, by one
+\* filler string so that it ENDS exactly at that offset of the input (the stream sources read in chunks of 16384 bytes: header ending just
+\* before / at / just after a chunk boundary; BSON has no such wrapper here)
+ClaimCases == { [k |-> "claim", f |-> q[1], name |-> q[2], head |-> q[3], extra |-> e, at |-> 0] : q \in Claims, e \in Extra }
+               \cup { [k |-> "claim", f |-> q[1], name |-> q[2], head |-> q[3], extra |-> <<97, 97, 97>>, at |-> o]
+                      : q \in { x \in Claims : x[1] # "bson" }, o \in {16383, 16384, 16385, 32768} }
 \* K siblings, then a nest that reaches exactly the limit / one beyond (msgpack: the outer array16 announces 9 items: 8 siblings + nest)
 SiblingCases == { [k |-> "sibling", f |-> q[1], sib |-> q[2], item |-> q[3], open |-> q[4], close |-> q[5], count |-> (IF q[1] = "msgpack" THEN 8 ELSE n),
                    limit |-> l, depth |-> l + dd, accept |-> AcceptDepth(l + dd, l)] : q \in Siblings, n \in {1, 3, 8}, l \in {4, 5, 16}, dd \in {0, 1} }   \* limits above the depth of the siblings themselves (at most 3 with the outer array)
